@@ -11,6 +11,11 @@ CFG = {
         # whole views (induction over the view tree)
         "Leptos.Html.C06_structure_preserved",
         "Leptos.Html.C06_structure_preserved_partial",
+        # the same over the extended embedding: typed text / primitive children, tuples, arrays, StaticVec,
+        # Fragment, Vec, Option, Either, ()
+        "Leptos.Html.C06_view_structure_preserved",
+        "Leptos.Html.C06_view_structure_preserved_partial",
+        "Leptos.Html.C06_view_raw_text_child_witness",
         "Leptos.Html.C06_head_partial",
         # refutations of the full statements (kernel-evaluated witnesses)
         "Leptos.Html.C06_raw_text_child_witness",
@@ -34,6 +39,8 @@ CFG = {
         "Leptos.Html.run_escapeAttr",
         "Leptos.Html.run_startTag",
         "Leptos.Html.run_node",
+        "Leptos.Html.run_vnode",
+        "Leptos.Html.vwf_of_shape_kids",
         "Leptos.Html.wf_of_shape_kids",
         "Leptos.Html.genericOK_of_kind",
     ],
@@ -43,10 +50,19 @@ CFG = {
     "rule": "small-scope part: every atom of the hostile alphabet (< > & \" ' / = ` NUL CR U+00A0 <!-- --> ]]> <![CDATA[ "
             "</script </title> </textarea> &amp; &#x3c; &lt multi-byte, controls, noncharacters) in every kind of string position "
             "(text child, adjacent texts, attribute, boolean+value, class/class toggle, style/style pair, title element, "
-            "children of textarea/script/style/noscript, custom element, document title, meta name/content/charset); "
+            "children of textarea/script/style/noscript, custom element, document title, meta name/content/charset) AND through every "
+            "value type of that position: text children &str String Arc<str> Cow (owned/borrowed) Oco closure; attribute values "
+            "&str String &String Arc<str> Oco closure char and Option<..> Some/None of them, typed attribute fns; class String &str Arc Cow Oco "
+            "closure Option, (name,bool), (name, closure); style String &str Arc Oco closure Option; style pairs with value &str String Arc "
+            "Oco closure Option; every child container with direct string items: Vec / [T;N] / StaticVec / tuple x String &str Arc Cow Oco, "
+            "Option / Either::Left / Either::Right x String &str Arc, None, Fragment, Vec<Option<String>>, Vec<Vec<String>>, mixed nestings, "
+            "containers at top level and inside raw-text elements; single characters as `char` child, in Vec<char>/Option<char>/[char;N], "
+            "as attribute value char / Option<char> / typed fn; every primitive type (u8..u128 usize i8..i128 isize f32 f64 bool IpAddr "
+            "Ipv4Addr Ipv6Addr SocketAddr NonZero*) as child, in a Vec, and as attribute value plain/Some/None; "
             "then seeded random view trees to depth 4 over 24 container tags + custom elements + 12 void + 5 raw-text/RCDATA "
-            "elements with 0-3 attributes of 7 kinds per element, strings drawn from the hostile alphabet / arbitrary scalar "
-            "values / benign words, and head ops (title + 0-3 <Meta/> through the real leptos_meta SSR path). distinct = distinct "
+            "elements with 0-3 attributes of 8 kinds (random value type per position) per element, children = typed strings, primitives, "
+            "containers (random kind x item type, nested), (), elements; strings drawn from the hostile alphabet / arbitrary scalar "
+            "values / benign words; and head ops (title + 0-3 <Meta/> through the real leptos_meta SSR path). distinct = distinct "
             "op line; a case is trivial (`plain`) when none of its strings contains a markup character, entity-like text, "
             "NUL/CR, non-ASCII, the empty string or an adjacent-text marker",
     "trusted": [
@@ -56,7 +72,9 @@ CFG = {
         "extract.py (tables EscapeTables, Elements)",
         "Rust std str::trim (Unicode White_Space) used by tachys for the class/style value and by the oracle",
     ],
-    "modelled": ["tachys sync to_html() for String/&str views, HtmlElement, tuples, AnyView; attributes_to_html (plain, bool, class, style, inner_html)",
+    "modelled": ["tachys sync to_html() for every string type (&str String Arc<str> Cow Oco, closures), primitives (view/primitives.rs: Display, unescaped), "
+                 "HtmlElement, tuples, [T;N], StaticVec, Fragment, Vec (trailing marker), Option/Either/() , AnyView; "
+                 "attributes_to_html (plain values of every AttributeValue type incl. Option, bool, class, style, inner_html)",
                  "leptos_meta ServerMetaContextOutput::inject_meta_context (title + registered meta tags)",
                  "html_escape::encode_text / encode_double_quoted_attribute"],
     "assumptions": [
